@@ -178,8 +178,14 @@ class Task:
         return np.array(out)
     def _need(self):
         if self.sol is None: raise Error('solution undefined')
-    def getxx(self, st): _log('getxx'); self._need(); return self.sol['xx'].copy()
-    def getbarxj(self, st, j): _log('getbarxj', j); self._need(); return self._pack(self.sol['barx'][j])
-    def gety(self, st): _log('gety'); self._need(); return self.sol['y'].copy()
-    def getbarsj(self, st, j): _log('getbarsj', j); self._need(); return self._pack(self.sol['bars'][j])
+    def getxx(self, st): self._need(); _log('getxx', self.sol['xx']); return self.sol['xx'].copy()
+    def getbarxj(self, st, j):
+        self._need()
+        if not 0 <= j < len(self.bardim): _log('getbarxj', j, []); raise Error('getbarxj: barvar index out of range')
+        _log('getbarxj', j, self._pack(self.sol['barx'][j])); return self._pack(self.sol['barx'][j])
+    def gety(self, st): self._need(); _log('gety', self.sol['y']); return self.sol['y'].copy()
+    def getbarsj(self, st, j):
+        self._need()
+        if not 0 <= j < len(self.bardim): _log('getbarsj', j, []); raise Error('getbarsj: barvar index out of range')
+        _log('getbarsj', j, self._pack(self.sol['bars'][j])); return self._pack(self.sol['bars'][j])
     def getprosta(self, st): return prosta.prim_and_dual_feas if self.sol is not None else prosta.unknown
